@@ -238,7 +238,7 @@ theorem eigvec_det3 (s0 s1 s2 s3 s4 s5 vp : K)
     ∧ Gen.eigvec_det3_v0 c c3 fn s0 s1 s2 s3 s4 s5 vp * Gen.eigvec_det3_v0 c c3 fn s0 s1 s2 s3 s4 s5 vp + Gen.eigvec_det3_v1 c c3 fn s0 s1 s2 s3 s4 s5 vp * Gen.eigvec_det3_v1 c c3 fn s0 s1 s2 s3 s4 s5 vp + Gen.eigvec_det3_v2 c c3 fn s0 s1 s2 s3 s4 s5 vp * Gen.eigvec_det3_v2 c c3 fn s0 s1 s2 s3 s4 s5 vp = 1
     ∧ Gen.eigvec_det3_ok c c3 fn s0 s1 s2 s3 s4 s5 vp = 1 := by
   simp only [gen_simp] at hm hn hsq
-  c03_unfold at hdet
+  simp only [M3.sym, M3.det, M3.sub_def, M3.sub, M3.smul_def, M3.smul, M3.one_def, M3.one] at hdet
   simp only [gen_simp]
   generalize fn.sqrt _ = r at *
   refine ⟨?_, ?_, ?_, ?_, trivial⟩
@@ -262,7 +262,7 @@ theorem eigvec_det1 (s0 s1 s2 s3 s4 s5 vp : K)
     ∧ Gen.eigvec_det1_v0 c c3 fn s0 s1 s2 s3 s4 s5 vp * Gen.eigvec_det1_v0 c c3 fn s0 s1 s2 s3 s4 s5 vp + Gen.eigvec_det1_v1 c c3 fn s0 s1 s2 s3 s4 s5 vp * Gen.eigvec_det1_v1 c c3 fn s0 s1 s2 s3 s4 s5 vp + Gen.eigvec_det1_v2 c c3 fn s0 s1 s2 s3 s4 s5 vp * Gen.eigvec_det1_v2 c c3 fn s0 s1 s2 s3 s4 s5 vp = 1
     ∧ Gen.eigvec_det1_ok c c3 fn s0 s1 s2 s3 s4 s5 vp = 1 := by
   simp only [gen_simp] at hm hn hsq
-  c03_unfold at hdet
+  simp only [M3.sym, M3.det, M3.sub_def, M3.sub, M3.smul_def, M3.smul, M3.one_def, M3.one] at hdet
   simp only [gen_simp]
   generalize fn.sqrt _ = r at *
   refine ⟨?_, ?_, ?_, ?_, trivial⟩
@@ -286,7 +286,7 @@ theorem eigvec_det2 (s0 s1 s2 s3 s4 s5 vp : K)
     ∧ Gen.eigvec_det2_v0 c c3 fn s0 s1 s2 s3 s4 s5 vp * Gen.eigvec_det2_v0 c c3 fn s0 s1 s2 s3 s4 s5 vp + Gen.eigvec_det2_v1 c c3 fn s0 s1 s2 s3 s4 s5 vp * Gen.eigvec_det2_v1 c c3 fn s0 s1 s2 s3 s4 s5 vp + Gen.eigvec_det2_v2 c c3 fn s0 s1 s2 s3 s4 s5 vp * Gen.eigvec_det2_v2 c c3 fn s0 s1 s2 s3 s4 s5 vp = 1
     ∧ Gen.eigvec_det2_ok c c3 fn s0 s1 s2 s3 s4 s5 vp = 1 := by
   simp only [gen_simp] at hm hn hsq
-  c03_unfold at hdet
+  simp only [M3.sym, M3.det, M3.sub_def, M3.sub, M3.smul_def, M3.smul, M3.one_def, M3.one] at hdet
   simp only [gen_simp]
   generalize fn.sqrt _ = r at *
   refine ⟨?_, ?_, ?_, ?_, trivial⟩
@@ -326,6 +326,7 @@ theorem sytrd3_pos (a00 a11 a22 a01 a02 a12 : K) (h2 : (2 : K) ≠ 0)
   unfold Orth
   c03_unfold
   generalize fn.sqrt _ = r at *
+  generalize hD : a01 * a01 + a02 * a02 - _ = D at *
   have e2 : a02 ^ 2 = r ^ 2 - a01 ^ 2 := by linear_combination (-1 : K) * hg
   have e3 : a02 ^ 3 = a02 * (r ^ 2 - a01 ^ 2) := by rw [← e2]; ring
   have e4 : a02 ^ 4 = (r ^ 2 - a01 ^ 2) ^ 2 := by rw [← e2]; ring
@@ -333,8 +334,8 @@ theorem sytrd3_pos (a00 a11 a22 a01 a02 a12 : K) (h2 : (2 : K) ≠ 0)
   have e6 : a02 ^ 6 = (r ^ 2 - a01 ^ 2) ^ 3 := by rw [← e2]; ring
   refine ⟨?_, ?_, ?_⟩
   · c03_close
-  · (repeat' apply And.intro) <;> (field_simp; ring_nf; (try simp only [e2, e3, e4, e5, e6]); (try ring1))
-  · (repeat' apply And.intro) <;> (field_simp; ring_nf; (try simp only [e2, e3, e4, e5, e6]); (try ring1))
+  · (repeat' apply And.intro) <;> (field_simp; subst hD; ring_nf; (try simp only [e2, e3, e4, e5, e6]); (try ring1))
+  · (repeat' apply And.intro) <;> (field_simp; subst hD; ring_nf; (try simp only [e2, e3, e4, e5, e6]); (try ring1))
 
 theorem sytrd3_neg (a00 a11 a22 a01 a02 a12 : K) (h2 : (2 : K) ≠ 0)
     (hg : Gen.sytrd3_neg_g c c3 fn a00 a11 a22 a01 a02 a12 * Gen.sytrd3_neg_g c c3 fn a00 a11 a22 a01 a02 a12 = Gen.sytrd3_neg_h c c3 fn a00 a11 a22 a01 a02 a12)
@@ -359,6 +360,7 @@ theorem sytrd3_neg (a00 a11 a22 a01 a02 a12 : K) (h2 : (2 : K) ≠ 0)
   unfold Orth
   c03_unfold
   generalize fn.sqrt _ = r at *
+  generalize hD : a01 * a01 + a02 * a02 - _ = D at *
   have e2 : a02 ^ 2 = r ^ 2 - a01 ^ 2 := by linear_combination (-1 : K) * hg
   have e3 : a02 ^ 3 = a02 * (r ^ 2 - a01 ^ 2) := by rw [← e2]; ring
   have e4 : a02 ^ 4 = (r ^ 2 - a01 ^ 2) ^ 2 := by rw [← e2]; ring
@@ -366,8 +368,8 @@ theorem sytrd3_neg (a00 a11 a22 a01 a02 a12 : K) (h2 : (2 : K) ≠ 0)
   have e6 : a02 ^ 6 = (r ^ 2 - a01 ^ 2) ^ 3 := by rw [← e2]; ring
   refine ⟨?_, ?_, ?_⟩
   · c03_close
-  · (repeat' apply And.intro) <;> (field_simp; ring_nf; (try simp only [e2, e3, e4, e5, e6]); (try ring1))
-  · (repeat' apply And.intro) <;> (field_simp; ring_nf; (try simp only [e2, e3, e4, e5, e6]); (try ring1))
+  · (repeat' apply And.intro) <;> (field_simp; subst hD; ring_nf; (try simp only [e2, e3, e4, e5, e6]); (try ring1))
+  · (repeat' apply And.intro) <;> (field_simp; subst hD; ring_nf; (try simp only [e2, e3, e4, e5, e6]); (try ring1))
 
 /-- degenerate branch (`a01 = a02 = 0` makes `ω ≤ 0`): nothing to do, `Q = 1`, `d = diag A`, `e = (g, a12)` -/
 theorem sytrd3_diag (a00 a11 a22 a01 a02 a12 : K) :
